@@ -229,7 +229,7 @@ def c17(ctx):
     q = ctx.quick
     return [
         tool_job(ctx, 'shellparse', 'internal/shellparse', 'shellparse', [H(ctx, 'C17', 'shell_h.go')], unwind=40, deadline_s=600 if q else 2400,
-                 only=['H_shell_dq1_2', 'H_shell_dq2_11', 'H_shell_sq', 'H_shell_unterminated'] if q else None),
+                 only=['H_shell_dq1_2', 'H_shell_dq2_11', 'H_shell_sq', 'H_shell_unterminated', 'H_shell_plain'] if q else None),
         tool_job(ctx, 'safesplit', 'xtool/safesplit', 'safesplit', [H(ctx, 'C17', 'pkgconfig_h.go')], unwind=40, deadline_s=600 if q else 2400),
     ]
 
@@ -278,7 +278,12 @@ def gen_c02(ctx):
 @prop('C02', level='translation_validation', title='numeric operators and conversions')
 def c02(ctx):
     C = _check()
-    return [C.TVJob('ops', gen_c02(ctx), 'tvc02', chunks=16, deadline_s=60 if ctx.quick else 300, prefix='C02.', extra=['--assume-fp-range'])]
+    import subprocess
+    cd = os.path.join(ctx.scratch, 'c02_cdiv_h.go')
+    subprocess.check_call(['python3', H(ctx, 'C02', 'gen_cdiv.py'), ctx.repo, cd])
+    return [C.TVJob('ops', gen_c02(ctx), 'tvc02', chunks=16, deadline_s=60 if ctx.quick else 300, prefix='C02.', extra=['--assume-fp-range']),
+            # the runtime's complex division against the reference toolchain's own complex128div on the special-value grid
+            rt_job(ctx, 'cdiv', [cd], unwind=10, deadline_s=900)]
 
 
 def gen_py(ctx, prop):
